@@ -2392,6 +2392,11 @@ static struct jbl_node* _jbl_node_detach(struct jbl_node *target, struct jbl_ptr
   if (!child) {
     return 0;
   }
+  if (parent->type == JBV_ARRAY) { // Elements behind the detached one move down: keep their indexes in sync
+    for (struct jbl_node *n = child->next; n; n = n->next) {
+      --n->klidx;
+    }
+  }
   _jbn_remove_item(parent, child);
   return child;
 }
